@@ -102,6 +102,8 @@ pub fn peephole_compile<'a>(
   cache_id_emitter: Rc<RefCell<CacheIdEmitter>>,
 ) -> Result<Fun, collections::Vec<'a, Diagnostic<VmFileId>>> {
   let (instructions, constants, lines) = chunk_builder.take();
+  #[cfg(laythe_verif)]
+  let verif_pre = verif::render(&instructions, &lines);
 
   let (mut instructions, lines) = peephole_optimize(instructions, lines);
 
@@ -123,6 +125,9 @@ pub fn peephole_compile<'a>(
   let encoder = ByteCodeEncoder::new(line_buffer, code_buffer, errors, cache_id_emitter);
   let EncodedChunk { code, lines } =
     encoder.encode(&instructions, &lines, &label_offsets[..label_count])?;
+
+  #[cfg(laythe_verif)]
+  verif::record(&fun_builder, &verif_pre, &instructions, &label_offsets[..label_count], &code, &lines, &constants);
 
   let instructions = hooks.manage(&*code);
   hooks.push_root(instructions);
@@ -349,6 +354,256 @@ fn compute_label_offsets(instructions: &[SymbolicByteCode], label_offsets: &mut 
     }
 
     offset += instruction.len()
+  }
+}
+
+/// Verification hooks (compiled only with `--cfg laythe_verif`): a per-thread log of every
+/// function that goes through `peephole_compile`, and a text interface to `peephole_optimize`.
+#[cfg(laythe_verif)]
+pub mod verif {
+  use super::*;
+  use crate::byte_code::{CaptureIndex, Label};
+  use laythe_core::value::Value;
+  use std::cell::RefCell;
+
+  thread_local! {
+    static LOG: RefCell<Vec<String>> = const { RefCell::new(Vec::new()) };
+  }
+
+  /// canonical text of one instruction: `Name operand*`
+  pub fn show(i: &SymbolicByteCode) -> String {
+    if let SymbolicByteCode::Label(l) = i {
+      return format!("Label {}", l.val());
+    }
+    let d = format!("{:?}", i).replace("Label(", "(");
+    let d: String = d
+      .chars()
+      .map(|c| if c == '(' || c == ')' || c == ',' { ' ' } else { c })
+      .collect();
+    d.split_whitespace().collect::<Vec<_>>().join(" ")
+  }
+
+  /// `instr@line;instr@line;...`
+  pub fn render(instructions: &[SymbolicByteCode], lines: &[u16]) -> String {
+    let mut out = String::new();
+    for (n, i) in instructions.iter().enumerate() {
+      if n > 0 {
+        out.push(';');
+      }
+      out.push_str(&show(i));
+      out.push('@');
+      match lines.get(n) {
+        Some(l) => out.push_str(&l.to_string()),
+        None => out.push('?'),
+      }
+    }
+    out
+  }
+
+  fn constant_kind(v: &Value) -> String {
+    if v.is_num() {
+      return "num".to_string();
+    }
+    if v.is_obj() {
+      let obj = v.to_obj();
+      return match obj.kind() {
+        laythe_core::object::ObjectKind::Fun => {
+          let f = obj.to_fun();
+          format!("fun:{}:{}", f.capture_count(), f.name())
+        },
+        laythe_core::object::ObjectKind::String => "str".to_string(),
+        k => format!("{:?}", k),
+      };
+    }
+    "other".to_string()
+  }
+
+  #[allow(clippy::too_many_arguments)]
+  pub fn record(
+    fun_builder: &FunBuilder,
+    pre: &str,
+    post: &[SymbolicByteCode],
+    label_offsets: &[usize],
+    code: &[u8],
+    lines: &[u16],
+    constants: &[Value],
+  ) {
+    let post_lines: Vec<u16> = Vec::new();
+    let mut s = String::new();
+    s.push_str(&format!(
+      "FUN name={:?} arity={:?} captures={} max_slots={}",
+      fun_builder.name(),
+      fun_builder.verif_arity(),
+      fun_builder.capture_count(),
+      fun_builder.verif_max_slots()
+    ));
+    s.push_str("|PRE ");
+    s.push_str(pre);
+    s.push_str("|POST ");
+    s.push_str(
+      &post
+        .iter()
+        .map(show)
+        .collect::<Vec<_>>()
+        .join(";"),
+    );
+    let _ = post_lines;
+    s.push_str("|LABELS ");
+    s.push_str(
+      &label_offsets
+        .iter()
+        .map(|o| o.to_string())
+        .collect::<Vec<_>>()
+        .join(","),
+    );
+    s.push_str("|CODE ");
+    s.push_str(&code.iter().map(|b| format!("{:02x}", b)).collect::<String>());
+    s.push_str("|LINES ");
+    s.push_str(
+      &lines
+        .iter()
+        .map(|l| l.to_string())
+        .collect::<Vec<_>>()
+        .join(","),
+    );
+    s.push_str("|CONSTS ");
+    s.push_str(
+      &constants
+        .iter()
+        .map(constant_kind)
+        .collect::<Vec<_>>()
+        .join(","),
+    );
+    LOG.with(|l| l.borrow_mut().push(s));
+  }
+
+  thread_local! {
+    static COMPILE_ONLY: std::cell::Cell<bool> = const { std::cell::Cell::new(false) };
+  }
+
+  /// When set, `Vm::interpret` stops after a successful compile (nothing is executed)
+  pub fn set_compile_only(on: bool) {
+    COMPILE_ONLY.with(|c| c.set(on));
+  }
+
+  pub fn compile_only() -> bool {
+    COMPILE_ONLY.with(|c| c.get())
+  }
+
+  /// Drain the per-thread log
+  pub fn take_log() -> Vec<String> {
+    LOG.with(|l| std::mem::take(&mut *l.borrow_mut()))
+  }
+
+  fn parse(text: &str) -> Option<SymbolicByteCode> {
+    use SymbolicByteCode as S;
+    let toks: Vec<&str> = text.split_whitespace().collect();
+    let name = *toks.first()?;
+    let n = |i: usize| -> Option<u64> { toks.get(i).and_then(|t| t.parse::<u64>().ok()) };
+    let lab = |i: usize| -> Option<Label> { n(i).map(|v| Label::new(v as u32)) };
+    Some(match name {
+      "Return" => S::Return,
+      "Negate" => S::Negate,
+      "Add" => S::Add,
+      "Subtract" => S::Subtract,
+      "Multiply" => S::Multiply,
+      "Divide" => S::Divide,
+      "Not" => S::Not,
+      "And" => S::And(lab(1)?),
+      "Or" => S::Or(lab(1)?),
+      "Constant" => S::Constant(n(1)? as u8),
+      "ConstantLong" => S::ConstantLong(n(1)? as u16),
+      "Nil" => S::Nil,
+      "True" => S::True,
+      "False" => S::False,
+      "List" => S::List(n(1)? as u16),
+      "Tuple" => S::Tuple(n(1)? as u16),
+      "Map" => S::Map(n(1)? as u16),
+      "Launch" => S::Launch(n(1)? as u8),
+      "Channel" => S::Channel,
+      "BufferedChannel" => S::BufferedChannel,
+      "Receive" => S::Receive,
+      "Send" => S::Send,
+      "Interpolate" => S::Interpolate(n(1)? as u16),
+      "IterNext" => S::IterNext(n(1)? as u16),
+      "IterCurrent" => S::IterCurrent(n(1)? as u16),
+      "Drop" => S::Drop,
+      "DropN" => S::DropN(n(1)? as u8),
+      "Dup" => S::Dup,
+      "Import" => S::Import(n(1)? as u16),
+      "ImportSym" => S::ImportSym((n(1)? as u16, n(2)? as u16)),
+      "Export" => S::Export(n(1)? as u16),
+      "LoadGlobal" => S::LoadGlobal(n(1)? as u16),
+      "DeclareModSym" => S::DeclareModSym((n(1)? as u16, n(2)? as u16)),
+      "GetModSym" => S::GetModSym(n(1)? as u16),
+      "SetModSym" => S::SetModSym(n(1)? as u16),
+      "Box" => S::Box(n(1)? as u8),
+      "EmptyBox" => S::EmptyBox,
+      "FillBox" => S::FillBox,
+      "GetBox" => S::GetBox(n(1)? as u8),
+      "SetBox" => S::SetBox(n(1)? as u8),
+      "GetLocal" => S::GetLocal(n(1)? as u8),
+      "SetLocal" => S::SetLocal(n(1)? as u8),
+      "GetCapture" => S::GetCapture(n(1)? as u8),
+      "SetCapture" => S::SetCapture(n(1)? as u8),
+      "GetPropByName" => S::GetPropByName(n(1)? as u16),
+      "SetPropByName" => S::SetPropByName(n(1)? as u16),
+      "GetProp" => S::GetProp(n(1)? as u16),
+      "SetProp" => S::SetProp(n(1)? as u16),
+      "JumpIfFalse" => S::JumpIfFalse(lab(1)?),
+      "Jump" => S::Jump(lab(1)?),
+      "Loop" => S::Loop(lab(1)?),
+      "PushHandler" => S::PushHandler((n(1)? as u16, lab(2)?)),
+      "CheckHandler" => S::CheckHandler(lab(1)?),
+      "GetError" => S::GetError,
+      "FinishUnwind" => S::FinishUnwind,
+      "ContinueUnwind" => S::ContinueUnwind,
+      "PopHandler" => S::PopHandler,
+      "Raise" => S::Raise,
+      "Label" => S::Label(lab(1)?),
+      "ArgumentDelimiter" => S::ArgumentDelimiter,
+      "Call" => S::Call(n(1)? as u8),
+      "Invoke" => S::Invoke((n(1)? as u16, n(2)? as u8)),
+      "SuperInvoke" => S::SuperInvoke((n(1)? as u16, n(2)? as u8)),
+      "Closure" => S::Closure(n(1)? as u16),
+      "Method" => S::Method(n(1)? as u16),
+      "Field" => S::Field(n(1)? as u16),
+      "StaticMethod" => S::StaticMethod(n(1)? as u16),
+      "Class" => S::Class(n(1)? as u16),
+      "Inherit" => S::Inherit,
+      "GetSuper" => S::GetSuper(n(1)? as u16),
+      "CaptureIndex" => match *toks.get(1)? {
+        "Local" => S::CaptureIndex(CaptureIndex::Local(n(2)? as u8)),
+        "Enclosing" => S::CaptureIndex(CaptureIndex::Enclosing(n(2)? as u8)),
+        _ => return None,
+      },
+      "InvokeSlot" => S::InvokeSlot,
+      "PropertySlot" => S::PropertySlot,
+      "Equal" => S::Equal,
+      "NotEqual" => S::NotEqual,
+      "Greater" => S::Greater,
+      "GreaterEqual" => S::GreaterEqual,
+      "Less" => S::Less,
+      "LessEqual" => S::LessEqual,
+      _ => return None,
+    })
+  }
+
+  /// Parse `instr@line;...`, run `peephole_optimize`, render the result the same way.
+  pub fn optimize_text(input: &str) -> Result<String, String> {
+    let mut instructions = Vec::new();
+    let mut lines = Vec::new();
+    for part in input.split(';') {
+      let part = part.trim();
+      if part.is_empty() {
+        continue;
+      }
+      let (i, l) = part.split_once('@').ok_or_else(|| format!("no line in {:?}", part))?;
+      instructions.push(parse(i).ok_or_else(|| format!("bad instruction {:?}", i))?);
+      lines.push(l.trim().parse::<u16>().map_err(|_| format!("bad line {:?}", l))?);
+    }
+    let (instructions, lines) = peephole_optimize(instructions, lines);
+    Ok(render(&instructions, &lines))
   }
 }
 
